@@ -333,6 +333,18 @@ class Exemptions:
                     if not p and isinstance(atom, ast.Compare) and isinstance(atom.ops[0], ast.In) \
                             and isinstance(atom.left, ast.Constant):
                         facts.add(atom.left.value)
+            pos = set()
+            for test, pol in enclosing_tests(site.fn.node, site.node):
+                for atom, p in conjuncts(test, pol):
+                    if p and isinstance(atom, ast.Compare) and isinstance(atom.ops[0], ast.In) and isinstance(atom.left, ast.Constant) \
+                            and atom.left.value == "year" and isinstance(atom.comparators[0], ast.Name):
+                        nm = atom.comparators[0].id
+                        defs = [x.value for x in iter_own_nodes(site.fn.node) if isinstance(x, ast.Assign)
+                                and any(isinstance(t, ast.Name) and t.id == nm for t in x.targets)]
+                        if defs and all(isinstance(d, ast.Call) and ast.unparse(d.func).endswith("_get_missing_parts") for d in defs):
+                            pos.add("missing-year")
+            if "missing-year" in pos and self.pre("yeardirs", self._year_directives_listed):
+                facts |= {"%y", "%Y"}
             if {"%y", "%Y"} <= facts:
                 return ("only reached when the format has no year directive: strptime then used 1900 "
                         "(not a leap year), so the month/day pair is valid in every year")
@@ -451,6 +463,20 @@ class Exemptions:
                 if ts and all(t == "C:dateparser.conf:Settings" for t in ts):
                     return "internal call passes a Settings instance: apply_settings' type check cannot fail"
         return None
+
+    def _year_directives_listed(self):
+        f = self.ix.funcs.get("dateparser.utils:_get_missing_parts")
+        if f is None:
+            return False
+        for n in iter_own_nodes(f.node):
+            if isinstance(n, ast.Dict):
+                try:
+                    d = ast.literal_eval(n)
+                except Exception:
+                    continue
+                if isinstance(d.get("year"), list) and {"%y", "%Y"} <= set(d["year"]):
+                    return True
+        return False
 
     def _load_data_validates_first(self):
         f = self.ix.funcs.get("dateparser.languages.loader:LocaleDataLoader._load_data")
